@@ -22,7 +22,7 @@ TRUSTED = ["Go map iteration order is an arbitrary permutation (results compared
            "goroutine scheduling of the PARALLEL variants only permutes chunk order (mutex-protected append)"]
 RULE = ("two aliased tables (0-7 rows, duplicate keys, numeric and string key columns, names chosen so both sides sort "
         "differently) x ON built from = != < <= > >= over 1-3 column pairs under AND/OR in random order and orientation x all 17 "
-        "join spellings; compared as multisets; non-trivial = >=1 matching and >=1 non-matching pair; distinct by (doc, SQL)")
+        "join spellings x each side given as the table, as a derived table over it or as a CTE holding it; compared as multisets; non-trivial = >=1 matching and >=1 non-matching pair; distinct by (doc, SQL)")
 
 LCOLS = [("a", "num"), ("z", "str"), ("k", "num")]
 RCOLS = [("m", "num"), ("b", "str"), ("a", "num")]
@@ -66,9 +66,23 @@ def gen_case(rnd):
     eq_only = rnd.random() < 0.45
     on = gen_on(rnd, rnd.randint(0, 2), eq_only)
     jt = join_type(spelling)
-    frm = ["join", jt, table("l", "x"), table("r", "y"), on]
-    q = select([["star"]], frm)
+    # each side: the table itself, a derived table over it, or a CTE holding it — the rows are the same, so is the textbook join
+    ctes = []
+    sides = []
+    for tname, alias in (("l", "x"), ("r", "y")):
+        form = rnd.random()
+        if form < 0.12:
+            sides.append(["derived", select([["star"]], table(tname)), alias])
+        elif form < 0.2:
+            ctes.append(["cte_" + tname, select([["star"]], table(tname))])
+            sides.append(table("cte_" + tname, alias))
+        else:
+            sides.append(table(tname, alias))
+    frm = ["join", jt, sides[0], sides[1], on]
+    q = select([["star"]], frm, ctes=ctes)
+    form_tag = "+".join(sd[0] if sd[0] == "derived" else ("cte" if sd[1][0].startswith("cte_") else "table") for sd in sides)
     c = mk_case({"l": l, "r": r}, q, mode="multiset", tag=spelling)
+    c["sides"] = form_tag
     c["mixed"] = mixed
     return c
 
@@ -126,6 +140,8 @@ def explore(chk, rnd, tier):
         # model that faithfully mirrors a wrong implementation)
         from ..common import as_multiset, enc_val
         for c, g, l, v in res:
+            if c.get("sides"):
+                chk.count("sides:" + c["sides"])
             if l["r"] == "ok" and not c.get("mixed") and not (c.get("tag") or "").startswith("ctx:"):
                 if as_multiset(dec_val(l["v"])) != as_multiset(dec_val(enc_val(textbook(c)))):
                     chk.add_violation("model-vs-textbook", {"sql": c["sql"], "doc": c["doc"], "model": l, "textbook": textbook(c)})
